@@ -2,6 +2,7 @@ package vm
 
 import (
 	"fmt"
+	"math/big"
 	"sort"
 	"strings"
 	"time"
@@ -150,6 +151,7 @@ func (vm *VM) runPath(fn *ssa.Function, args []Value, prefix []Decision) (out pa
 			switch e := r.(type) {
 			case VMError:
 				out = pathOutcome{"inconclusive", e.Msg}
+				vm.completeNatively(e.Msg)
 			case GoPanic:
 				// feasible by construction; fetch a model
 				site := "?"
@@ -172,6 +174,7 @@ func (vm *VM) runPath(fn *ssa.Function, args []Value, prefix []Decision) (out pa
 				// a defect of the engine itself (e.g. an unexpected value representation): the path is
 				// inconclusive, never a verdict; the message goes to the evidence
 				out = pathOutcome{"inconclusive", fmt.Sprintf("internal engine error: %v", r)}
+				vm.completeNatively(out.msg)
 			}
 		}
 		vm.Solver.PopTo(0)
@@ -184,6 +187,46 @@ func (vm *VM) runPath(fn *ssa.Function, args []Value, prefix []Decision) (out pa
 		}
 	}
 	return pathOutcome{"ok", ""}
+}
+
+// completeNatively: a path the engine cannot finish (a construct outside the encoding) stays
+// inconclusive, but one concrete input of the part explored so far is handed to the native
+// replay, which runs the REAL code with the harness's assertions: a native failure is a genuine
+// violation, a native pass proves nothing (by-product, not a solver verdict). The input prefers
+// large odd numbers (>= 2^64) for the unbounded integers, where conversions and shared storage bite.
+func (vm *VM) completeNatively(reason string) {
+	defer func() { recover() }()
+	if vm.ConcreteValues != nil || vm.Solver == nil {
+		return
+	}
+	names := make([]string, 0, len(vm.declared))
+	for n, d := range vm.declared {
+		if d.Kind == "int" {
+			names = append(names, n)
+		}
+	}
+	sort.Strings(names)
+	if len(names) > 6 {
+		names = names[:6]
+	}
+	lvl := vm.Solver.Level()
+	vm.Solver.Push()
+	got := 0
+	for i, n := range names {
+		v := smt.Var(n, smt.SInt)
+		pref := smt.And(smt.Le(smt.Int(new(big.Int).Add(pow2(64), big.NewInt(int64(12345+2*i)))), v), smt.Eq(smt.Mod(v, smt.Int64(2)), smt.Int64(1)))
+		if vm.Solver.CheckWith(pref, false) == smt.Sat {
+			vm.Solver.Assert(pref)
+			got++
+		}
+	}
+	if vm.Solver.Check() == smt.Sat {
+		model := vm.modelStrings()
+		// the id carries how many preferences the path allowed, so that the per-id cap keeps
+		// the paths on which every number could be made large next to the others
+		vm.recordFinding("completion", fmt.Sprintf("engine-limit: path completed natively (%d of %d numbers large)", got, len(names)), firstLine(reason), model, append([]string{}, vm.stack...))
+	}
+	vm.Solver.PopTo(lvl)
 }
 
 func firstLine(s string) string {
